@@ -63,6 +63,54 @@ REQUIRED = {'named_checked': 300, 'bystanders_compared': 1000,
 # ------------------------------------------------------------------------------
 # (a) scheduler stage
 #
+class CancelWatch(object):
+    '''
+    once the scheduling loop has consumed the cancel request, a named task
+    must neither sit in the wait pool at a step boundary nor be started: the
+    request was taken out of the loop's input queue, so every task the loop
+    meets from then on is met *later* ("a named task that a component meets
+    later is canceled there instead of being processed")
+    '''
+
+    def __init__(self, res, named):
+        self.res       = res
+        self.named     = set(named)
+        self.requested = False
+        self.processed = False
+        self.problems  = list()
+
+    def _pending_cancel(self, sim):
+        c = sim.pair.child
+        return any(flag == c._CANCEL for _, flag in list(c._queue_sched._q.queue))
+
+    def on_grant(self, sim, uid, task, view):
+        if self.processed and uid in self.named:
+            self.problems.append(('named-task-started-after-cancel-processed',
+                                  '%s was placed and handed on although the '
+                                  'scheduling loop had consumed the cancel '
+                                  'request before' % uid))
+
+    def on_final(self, sim, thing): pass
+    def on_release(self, sim, uid, view): pass
+
+    def after_step(self, sim, last):
+        if not self.requested:
+            return
+        if not self.processed:
+            if last[0] == 'incoming' and not self._pending_cancel(sim) and \
+                    sim.env.net.quiet():
+                self.processed = True
+                self.res.count('cancel_requests_seen_processed')
+            return
+        for uid in self.named:
+            if 'waitpool' in sim.places(uid):
+                self.problems.append(
+                        ('named-task-waits-after-cancel-processed',
+                         '%s is in the wait pool after step %s although the '
+                         'scheduling loop consumed the cancel request before'
+                         % (uid, last[0])))
+
+
 def sched_history(ctx, case, with_cancel, res):
     '''returns (outcomes, info) of one deterministic gated history'''
 
@@ -71,7 +119,9 @@ def sched_history(ctx, case, with_cancel, res):
     cons = Conservation(res if with_cancel else Result())
     sim  = None
     try:
-        sim = Sim(wd, case, observers=[cons])
+        watch = CancelWatch(res if with_cancel else Result(),
+                            case['cancel_uids'])
+        sim = Sim(wd, case, observers=[cons, watch])
         pending = [t['uid'] for t in case['tasks']][::-1]
         point = None
         if any(t.get('raptor_id') for t in case['tasks']) and \
@@ -85,6 +135,7 @@ def sched_history(ctx, case, with_cancel, res):
                 if with_cancel:
                     sim.cancel(case['cancel_uids'])
                     sim.pump()
+                    watch.requested = True
             a = act[0]
             if a == 'arrive':
                 if pending:
@@ -129,7 +180,8 @@ def sched_history(ctx, case, with_cancel, res):
             where = sim.places(u)
             out[u] = sorted(set(where))
         info = {'point': point, 'grants': [u for u, _ in sim.grants],
-                'trace': sim.trace, 'errors': list(sim.env.net.errors)}
+                'trace': sim.trace, 'errors': list(sim.env.net.errors),
+                'watch': list(watch.problems)}
         return out, info
     finally:
         if sim:
@@ -171,6 +223,9 @@ def judge_sched(case, res, with_c, without_c):
 
     for e in info_c['errors']:
         res.violation('callback-error', e[2], ctx)
+
+    for mech, msg in info_c.get('watch', [])[:2]:
+        res.violation(mech, msg, ctx)
 
     for u, where in (info_c['point'] or {}).items():
         for w in where:
